@@ -121,7 +121,7 @@ theorem transformValue_request (ty : String) (c : CreateReq) :
     canonical text of a re-marshalled create request (without numbers), base64url-encoded, is read
     back, decodes, re-marshals to the very same text and so passes the comparison -/
 theorem parseInitialState_canonical (ty : String) (c : CreateReq) (canon : List Char) (hwf : WF c)
-    (hnf : RT.numFree (createRequestJson ty c) = true)
+    (htyc : ty = "" ∨ ty = "create") (hnf : RT.numFree (createRequestJson ty c) = true)
     (hc : transformValue (createRequestJson ty c) = some canon) :
     ∃ c' n, Parse.parse canon = some n ∧ decodeCreate n = some c' ∧
       ((GoJson.topObject n).bind fun top => GoJson.str top "type") = some ty ∧
@@ -139,7 +139,7 @@ theorem parseInitialState_canonical (ty : String) (c : CreateReq) (canon : List 
       rw [transformValue_request, hre, Option.map_some, hc]
     refine ⟨c', n, hparse, hd, hty, ?_, htv⟩
     unfold parseInitialState
-    simp only [b64_decode_encode_str, utf8_roundtrip, Option.bind_some, String.toList_ofList, hparse, hd, hty, htv, if_true]
+    simp only [b64_decode_encode_str, utf8_roundtrip, Option.bind_some, String.toList_ofList, hparse, hd, hty, htv, htyc, if_true]
 
 theorem ofString_create (s : String) (h : OpType.ofString? s = some .create) : s = "create" := by
   unfold OpType.ofString? at h
@@ -190,7 +190,7 @@ theorem process_result_resolves (H : HashFam) (orc : Oracles) (ns : String) (tex
                   exact ofString_create ty (by simpa using hrt)
                 subst htyc
                 obtain ⟨c', n, hparse, hd', htyn, hpi, htv⟩ :=
-                  parseInitialState_canonical "create" c canon (decodeCreate_wf j c hd) (hnum c "create" hd hty) hc
+                  parseInitialState_canonical "create" c canon (decodeCreate_wf j c hd) (.inr rfl) (hnum c "create" hd hty) hc
                 rw [hcj] at hparse
                 cases hparse
                 -- the suffix is a multihash, hence colon-free
